@@ -1188,13 +1188,38 @@ def build_service(methods: list[dict], env: Env, *, raises: dict | None = None) 
 import contextlib  # noqa: E402
 
 
+class Conn:
+    """A live client proxy plus the list of exceptions that escaped the in-process server loop."""
+
+    def __init__(self, proxy: Any, crashed: list, thread: Any = None) -> None:
+        self.proxy = proxy
+        self.crashed = crashed
+        self.thread = thread
+
+    def settle(self) -> bool:
+        """After a failed call: give a dying server thread a moment to finish dying; True if the loop is dead.
+
+        A crash is recorded *before* the server end is closed, so for every call after the crashing one the
+        answer is already known; the wait only matters for the crashing call itself.
+        """
+        if self.thread is not None and not self.crashed:
+            self.thread.join(timeout=1.0)
+        return bool(self.crashed) or (self.thread is not None and not self.thread.is_alive())
+
+
 @contextlib.contextmanager
 def open_transport(kind: str, proto: type, impl: Any, **http_kw: Any):  # type: ignore[no-untyped-def]
-    """Yield a client proxy for ``proto`` served by ``impl`` over ``kind`` (all in-process; no thread outlives it)."""
+    """Yield a ``Conn`` for ``proto`` served by ``impl`` over ``kind`` (all in-process; no thread outlives it).
+
+    For the socket-like transports the server runs ``RpcServer.serve`` on a thread.  If an exception escapes
+    ``serve`` the thread closes its transport end — what a dying worker process does — so the client observes
+    EOF instead of blocking forever, and the exception is recorded in ``Conn.crashed``.
+    """
     import threading
 
     from vgi_rpc.rpc import RpcConnection, RpcServer, make_pipe_pair
 
+    crashed: list = []
     if kind == "http":
         from vgi_rpc.http import http_connect
         from vgi_rpc.http._testing import make_sync_client
@@ -1202,7 +1227,7 @@ def open_transport(kind: str, proto: type, impl: Any, **http_kw: Any):  # type: 
         client = make_sync_client(RpcServer(proto, impl), token_key=b"k" * 32, **http_kw)
         try:
             with http_connect(proto, client=client) as proxy:
-                yield proxy
+                yield Conn(proxy, crashed)
         finally:
             client.close()
         return
@@ -1227,15 +1252,27 @@ def open_transport(kind: str, proto: type, impl: Any, **http_kw: Any):  # type: 
     else:
         raise ValueError(kind)
     server = RpcServer(proto, impl)
-    th = threading.Thread(target=server.serve, args=(st_,), daemon=True)
+
+    def _serve() -> None:
+        try:
+            server.serve(st_)
+        except BaseException as e:  # noqa: BLE001 - recorded for the oracle
+            crashed.append(e)
+        finally:
+            with contextlib.suppress(Exception):
+                st_.close()
+
+    th = threading.Thread(target=_serve, daemon=True)
     th.start()
     try:
         with RpcConnection(proto, ct) as proxy:
-            yield proxy
+            yield Conn(proxy, crashed, th)
     finally:
-        ct.close()
+        with contextlib.suppress(Exception):
+            ct.close()
         th.join(timeout=10)
-        st_.close()
+        with contextlib.suppress(Exception):
+            st_.close()
         if shm is not None:
             shm.unlink()
             shm.close()
